@@ -81,6 +81,8 @@ def work(tier, seed):
     items.append({"kind": "many_columns", "ncols": 9, "levels": 256, "groups": 300})
     for ncols in (1, 2):
         items.append({"kind": "nul", "ncols": ncols})
+    for which in ("fnr_ci", "tpr_ci", "fpr_ci"):
+        items.append({"kind": "interval_metric", "metric": which})
     items.append({"kind": "errors"})
     return items
 
@@ -226,6 +228,8 @@ def run(item, ctx, tier, seed):
         return _run_bigint(item, ctx, b)
     if item["kind"] == "wide_groups":
         return _run_wide_groups(item, ctx, b)
+    if item["kind"] == "interval_metric":
+        return _run_interval_metric(item, ctx, b)
     if item["kind"] == "many_columns":
         return _run_many_columns(item, ctx, b)
     if item["kind"] == "nul":
@@ -612,6 +616,112 @@ def _run_wide_groups(item, ctx, b):
                     ctx.fail("entry-is-metric-of-that-groups-rows", dict(case, group=repr(key)), observed=g, expected=want)
                     break
     ctx.sample({"kind": "wide_groups", "values_per_column": nv, "ncols": ncols, "groups": len(groups)})
+    return None
+
+
+def _run_interval_metric(item, ctx, b):
+    """
+    The interval-valued metric names (tpr_ci, fnr_ci, fpr_ci: each entry is a pair [low, high], and the low end is
+    negative for rare events): values, normalisation by the whole-data pair (component-wise, which may be negative) and
+    bootstrap intervals under a deterministic menu sampler.
+    """
+    from score_analysis import BootstrapConfig, GroupScores, showbias
+
+    metric = item["metric"]
+    count_of = {"fnr_ci": ("fn", "p"), "tpr_ci": ("tp", "p"), "fpr_ci": ("fp", "n")}[metric]
+    rows = []
+    for g_, npos, nneg, fn_, fp_ in (("north", 30, 12, 1, 1), ("south", 20, 25, 1, 0), ("west", 10, 9, 0, 2)):
+        for i in range(npos):
+            rows.append((g_, 1, 0.2 if i < fn_ else 0.6 + 0.3 * i / npos))
+        for i in range(nneg):
+            rows.append((g_, 0, 0.8 if i < fp_ else 0.1 + 0.3 * i / nneg))
+    rows = rows[::3] + rows[1::3] + rows[2::3]
+    df = pd.DataFrame({"grp": [r[0] for r in rows], "lab": [r[1] for r in rows], "sc": [r[2] for r in rows]})
+    tl = [0.5, 0.4]
+    groups = sorted({r[0] for r in rows})
+
+    def pairs(sub_rows_):
+        """{group: [[low, high] per threshold]} and the whole-data pairs, by counting + the normal approximation"""
+        out = {}
+        for key in groups + [None]:
+            sel = [r for r in sub_rows_ if key is None or r[0] == key]
+            pos_ = [r[2] for r in sel if r[1] == 1]
+            neg_ = [r[2] for r in sel if r[1] != 1]
+            per_t = []
+            for t in tl:
+                (tp, fn), (fp, tn) = refs.ref_cm(pos_, neg_, t, "pos", "pos")
+                cnt = {"tp": tp, "fn": fn, "fp": fp, "p": tp + fn, "n": fp + tn}
+                per_t.append(list(refs.ref_binomial_ci(float(cnt[count_of[0]]), float(cnt[count_of[1]]), 0.05)))
+            out[key] = per_t
+        return out
+
+    def norm(v, d):
+        return v / d if d != 0 else v
+
+    base = pairs(rows)
+    # menu of sub-samples: the data itself, the data without every 4th row, the data with the first 15 rows twice
+    menus = [rows, [r for i, r in enumerate(rows) if i % 4], rows + rows[:15]]
+
+    def to_gs(rs):
+        return GroupScores.from_labels(labels=np.array([r[1] for r in rs]), scores=np.array([r[2] for r in rs]),
+                                       groups=np.array([r[0] for r in rs], dtype=object), pos_label=1)
+
+    for how in (None, "by_overall"):
+        for method in ("quantile", "bc"):
+            for seq in ((0, 1, 2), (1, 2, 2), (2, 0, 1, 1)):
+                calls = []
+
+                def sampler(s_, _seq=seq, _c=calls):
+                    _c.append(1)
+                    return to_gs(menus[_seq[len(_c) - 1]])
+
+                cfgobj = BootstrapConfig(nb_samples=len(seq), bootstrap_method=method, sampling_method=sampler)
+                case = {"kind": "interval_metric", "metric": metric, "normalize": how, "method": method, "sequence": list(seq), "threshold": tl,
+                        "overall_pairs": base[None]}
+                ctx.state()
+                ctx.nontrivial()
+                ok, bf = guarded(ctx, "showbias-bootstrap", case, lambda: showbias(df, "grp", "lab", "sc", metric, threshold=tl, normalize=how,
+                                                                                   bootstrap_ci=True, bootstrap_config=cfgobj, alpha=0.2))
+                ctx.tick()
+                if not ok:
+                    continue
+                if list(bf.values.index) != groups:
+                    ctx.fail("rows-labelled-with-the-groups-of-their-rows", case, observed=list(bf.values.index), expected=groups)
+                    continue
+                vals = np.asarray(bf.values.values.tolist(), dtype=float)
+                lower = np.asarray(bf.lower.values.tolist(), dtype=float)
+                upper = np.asarray(bf.upper.values.tolist(), dtype=float)
+                reps = [pairs(menus[j]) for j in seq]
+                bad = False
+                for gi, g_ in enumerate(groups):
+                    for ti in range(len(tl)):
+                        for c_ in (0, 1):
+                            d_ = base[None][ti][c_] if how else 1.0
+                            want_v = norm(base[g_][ti][c_], d_) if how else base[g_][ti][c_]
+                            if abs(vals[gi, ti, c_] - want_v) > 1e-9 * max(1.0, abs(want_v)):
+                                ctx.fail("normalised-entry" if how else "entry-is-metric-of-that-groups-rows", dict(case, group=g_, threshold=tl[ti], component=c_),
+                                         observed=float(vals[gi, ti, c_]), expected=want_v)
+                                bad = True
+                                break
+                            col = [norm(r[g_][ti][c_], d_) if how else r[g_][ti][c_] for r in reps]
+                            want_ci = refs.ref_bootstrap_ci(col, want_v, 0.2, method)
+                            lo_, hi_ = float(lower[gi, ti, c_]), float(upper[gi, ti, c_])
+                            if want_ci is not None and not (abs(lo_ - want_ci[0]) <= 1e-9 * max(1.0, abs(want_ci[0]))
+                                                             and abs(hi_ - want_ci[1]) <= 1e-9 * max(1.0, abs(want_ci[1]))):
+                                ctx.fail("interval-is-for-the-normalised-quantity", dict(case, group=g_, threshold=tl[ti], component=c_),
+                                         observed=[lo_, hi_], expected=list(want_ci))
+                                bad = True
+                                break
+                            if not lo_ <= hi_ + 1e-12:
+                                ctx.fail("lower-le-upper", dict(case, group=g_, threshold=tl[ti], component=c_), observed=[lo_, hi_], expected="lower <= upper")
+                                bad = True
+                                break
+                        if bad:
+                            break
+                    if bad:
+                        break
+                ctx.outcome((metric, how, method, seq))
+    ctx.sample({"kind": "interval_metric", "metric": metric, "rows": len(rows), "overall_pairs": base[None]})
     return None
 
 
